@@ -265,6 +265,42 @@ def fold_texts():
     return sorted(set(out))
 
 
+MAGIC_TEXTS = ["n/a", "N/A", "n/A", " n/a ", "  N/a", "n/a ", "(n/a)", "n/a, Red", "Red, n/a", "(Red, n/a)", "n/a/x", "n/b", "na",
+               "null", "NULL", "None", "none", "nan", "NaN", "#", "HED", "true", "false", "0", "-", "_", "n/a,n/a", "n/a\t", "\tn/a"]
+DEPTHS = [8, 32, 64, 99, 100, 101, 102, 128, 150, 200]
+
+
+def deep_texts():
+    out = []
+    for d in DEPTHS:
+        out.append("(" * d + "Red" + ")" * d)
+        out.append("Blue, " + "(" * d + "Red, (a)" + ")" * d)
+        out.append("(" * d + "Red" + ")" * (d - 1) + ", a)")
+    return out
+
+
+def worker_special(rec, shard, nshards, seed):
+    """Texts no bounded alphabet spells: missing-value words used as the whole annotation, and very deep nesting."""
+    from hed import load_schema_version
+    schema = load_schema_version("8.3.0")
+    texts = [(t, True) for t in MAGIC_TEXTS if "\t" not in t] + [(t, False) for t in MAGIC_TEXTS if "\t" in t] + \
+        [(t, True) for t in deep_texts()]
+    for i in core.shard_order(len(texts), shard, nshards, seed):
+        text, strict = texts[i]
+        viols, balanced = check_one(text, schema, strict)
+        rec.n("evaluations")
+        rec.n("transitions", 5)
+        rec.n("distinct_nontrivial")
+        rec.state(("special", text[:6], len(text) > 40))
+        rec.outcome("special:" + ("ok" if not viols else viols[0][0]))
+        for fp, info in viols:
+            info = dict(info, text=info.get("text", "")[:80] + ("..." if len(info.get("text", "")) > 80 else ""))
+            for k in ("expected", "got", "printed"):
+                if k in info:
+                    info[k] = repr(info[k])[:200]
+            rec.violation("C02:special-text:" + fp, kind=fp, **info)
+
+
 def worker_fold(rec, shard, nshards, seed):
     from hed import load_schema_version
     for version in ("8.3.0", "8.2.0"):
@@ -303,6 +339,8 @@ def run(ctx):
     ctx.parallel(worker, sig_ext, n_ext, False, ctx.seed, "ext")
     ctx.rec.notes["bounds"]["fold_texts"] = len(fold_texts())
     ctx.parallel(worker_fold, ctx.seed)
+    ctx.rec.notes["bounds"]["special_texts"] = {"magic": MAGIC_TEXTS, "nesting_depths": DEPTHS}
+    ctx.parallel(worker_special, ctx.seed)
     ctx.rec.counts["states"] = len(ctx.rec.states)
 
 
